@@ -1370,6 +1370,10 @@ struct SubDef {
     thorough: u64,
     /// count cases with rep.bulk (distinct by construction) instead of hashing
     bulk: bool,
+    /// share (percent, quick / thorough) of the wall cap after which the sub-space
+    /// is cut so that the following ones still get their turn on an overloaded
+    /// machine; unused time rolls over.  On an idle 16-core machine no share is reached.
+    share: (u64, u64),
 }
 impl Gens {
     fn new() -> Gens {
@@ -1379,15 +1383,15 @@ impl Gens {
         let fq = FUNCS.len() as u64 * FN_PER_Q;
         vec![
             // cheap and defect-dense sub-spaces first, the bulk enumerations last (a deadline cuts the tail)
-            SubDef { name: "prag", block: 16, quick: self.g.quick(), thorough: self.g.thorough(), bulk: false },
-            SubDef { name: "arith", block: 256, quick: arith_count(), thorough: arith_count(), bulk: false },
-            SubDef { name: "fn", block: 256, quick: fq, thorough: fq + FUNCS.len() as u64 * 1728, bulk: false },
-            SubDef { name: "par", block: 128, quick: *self.p.cum1.last().unwrap(), thorough: self.p.cum1.last().unwrap() + self.p.cum2.last().unwrap(), bulk: false },
-            SubDef { name: "big", block: 1, quick: big_count(), thorough: big_count(), bulk: false },
-            SubDef { name: "api", block: 1, quick: api_count(3), thorough: api_count(4), bulk: false },
-            SubDef { name: "tok", block: 512, quick: tok_count(4), thorough: tok_count(5), bulk: true },
-            SubDef { name: "mut", block: 256, quick: self.m.singles(), thorough: self.m.singles() + self.m.pairs(), bulk: false },
-            SubDef { name: "lex", block: 1024, quick: self.l.quick(), thorough: self.l.thorough(), bulk: true },
+            SubDef { share: (5, 5), name: "prag", block: 16, quick: self.g.quick(), thorough: self.g.thorough(), bulk: false },
+            SubDef { share: (5, 2), name: "arith", block: 256, quick: arith_count(), thorough: arith_count(), bulk: false },
+            SubDef { share: (5, 3), name: "fn", block: 256, quick: fq, thorough: fq + FUNCS.len() as u64 * 1728, bulk: false },
+            SubDef { share: (8, 5), name: "par", block: 128, quick: *self.p.cum1.last().unwrap(), thorough: self.p.cum1.last().unwrap() + self.p.cum2.last().unwrap(), bulk: false },
+            SubDef { share: (20, 5), name: "big", block: 1, quick: big_count(), thorough: big_count(), bulk: false },
+            SubDef { share: (15, 15), name: "api", block: 1, quick: api_count(3), thorough: api_count(4), bulk: false },
+            SubDef { share: (15, 35), name: "tok", block: 512, quick: tok_count(4), thorough: tok_count(5), bulk: true },
+            SubDef { share: (12, 15), name: "mut", block: 256, quick: self.m.singles(), thorough: self.m.singles() + self.m.pairs(), bulk: false },
+            SubDef { share: (15, 15), name: "lex", block: 1024, quick: self.l.quick(), thorough: self.l.thorough(), bulk: true },
         ]
     }
     fn gen(&self, sub: &str, idx: u64) -> Act {
@@ -2056,6 +2060,9 @@ fn setup_process(child: bool) {
     let _ = turdb_caller();
 }
 
+const CAP_QUICK_S: u64 = 100;
+const CAP_THOROUGH_S: u64 = 1500;
+
 struct C22;
 
 impl Check for C22 {
@@ -2071,8 +2078,8 @@ impl Check for C22 {
             "workers run with RLIMIT_AS = 8 GiB so an absurd allocation request fails instead of exhausting the shared machine",
             "panic sites are named file(function) by looking up the enclosing fn in the /repo source at the panic line",
         ];
-        s.cap_quick_s = 100;
-        s.cap_thorough_s = 1500;
+        s.cap_quick_s = CAP_QUICK_S;
+        s.cap_thorough_s = CAP_THOROUGH_S;
         s.crash_is_verdict = true;
         vec![s]
     }
@@ -2088,7 +2095,12 @@ impl Check for C22 {
         rep.bound("alphabet", json!(ALPHA.to_vec()));
         rep.bound("seed_statements", json!(SEEDS.len()));
         let subs = g.subs();
+        let cap_s = ctx.tier.pick(CAP_QUICK_S, CAP_THOROUGH_S);
+        let start = ctx.deadline.checked_sub(Duration::from_secs(cap_s)).unwrap_or_else(Instant::now);
+        let mut cum_share = 0u64;
         'outer: for sd in &subs {
+            cum_share += ctx.tier.pick(sd.share.0, sd.share.1);
+            let cutoff = (start + Duration::from_millis(cap_s * 10 * cum_share.min(100))).min(ctx.deadline);
             // development aid: `--opt only=tok,mut` restricts the run to some sub-spaces
             if let Some(o) = ctx.opt("only") {
                 if !o.split(',').any(|x| x == sd.name) {
@@ -2099,15 +2111,20 @@ impl Check for C22 {
             let n = ctx.tier.pick(sd.quick, sd.thorough);
             rep.bound(&format!("{}_cases_enumerated", sd.name), json!(n));
             let nb = (n + sd.block - 1) / sd.block;
+            // block ownership must not depend on how far this worker got in earlier sub-spaces
+            let gid0 = gid;
+            gid += nb;
             for b in 0..nb {
-                let mine = ctx.mine(gid);
-                gid += 1;
-                if !mine {
+                if !ctx.mine(gid0 + b) {
                     continue;
                 }
                 if ctx.expired() {
                     rep.capped(&format!("deadline in sub-space {} at block {b} of {nb}", sd.name));
                     break 'outer;
+                }
+                if Instant::now() >= cutoff {
+                    rep.capped(&format!("time share of sub-space {} used up at block {b} of {nb} (overloaded machine)", sd.name));
+                    break;
                 }
                 let (lo, hi) = (b * sd.block, n.min((b + 1) * sd.block));
                 if sd.name == "big" {
